@@ -167,7 +167,7 @@ func main() {
 		allow[p] = true
 	}
 	// errors/context/os/time/syscall initialisers need reflectlite or the runtime: keep them off
-	for _, p := range []string{"os", "syscall", "internal/poll", "context", "errors", "io/fs", "internal/oserror"} {
+	for _, p := range []string{"context", "errors"} {
 		delete(allow, p)
 	}
 	icfg.AllowInit = func(p string) bool {
@@ -186,6 +186,9 @@ func main() {
 		}
 	}
 	m := interp.NewMachine(prog, icfg)
+	if model != nil {
+		m.ExtraInit = append(m.ExtraInit, model)
+	}
 	if *cpuprof != "" {
 		f, _ := os.Create(*cpuprof)
 		pprof.StartCPUProfile(f)
